@@ -77,6 +77,7 @@ type VC struct {
 	topRets   []retRec
 	safetyOff bool
 	firedAnchors map[*Clause]bool
+	tablesDone   map[string]bool
 }
 
 func (vc *VC) note(format string, a ...interface{}) {
